@@ -198,11 +198,15 @@ struct G {
 
     // ---- operations with model tracking
     bool zero_on_invalid = false;
+    bool allow_chain = true;     // chained operations (the library's own outputs as inputs)
     void config(int fill, int kdfm, int fulllen = 0) {
         Op& o = emit(OP_CONFIG, 0, 0);
         // swarm over environment knobs: block alignment (8 mod 16), LIFO address reuse, time zone of the process
         u64 knobs = (rng.chance(1, 4) ? 1ull << 10 : 0) | (rng.chance(1, 3) ? 1ull << 11 : 0) | ((rng.chance(1, 3) ? rng.below(4) : 0) << 12);
         if (zero_on_invalid) knobs |= 1ull << 14;
+        if (rng.chance(1, 4)) knobs |= 1ull << 15;      // errno left set by dependencies
+        if (rng.chance(1, 4)) knobs |= 1ull << 16;      // alias-unsafe normalisers
+        if (rng.chance(1, 4)) knobs |= 1ull << 17;      // failing memory-locking calls
         o.a = (u64)fill | ((u64)kdfm << 8) | ((u64)fulllen << 9) | knobs; o.b = rng.next() >> 1; kdf_mode = kdfm;
     }
     void inject(int gen, unsigned opt) { Op& o = emit(OP_INJECT, 0, 0); o.a = gen; o.b = opt; }
@@ -229,6 +233,15 @@ struct G {
         if (!o.fail && d.status == ST_OK && model::supported(d.seed.features, mask)) seeds[{t, s}] = d.seed;
     }
     // operations that do not allocate today carry fault masks too: a refactoring may make them allocate
+    // chained operations: the library's own latest output of that task is the input
+    void decode_chain(int t, int s, const AbsSeed& src, bool explicit_lang) {
+        Op& o = emit(explicit_lang ? OP_DECODEX : OP_DECODE, t, s); o.chain = 1; o.fail = maybe_fail();
+        if (!o.fail && model::supported(src.features, mask)) seeds[{t, s}] = src;
+    }
+    void load_chain(int t, int s, const AbsSeed& src) {
+        Op& o = emit(OP_LOAD, t, s); o.chain = 1; o.fail = maybe_fail();
+        if (!o.fail && model::supported(src.features, mask)) seeds[{t, s}] = src;
+    }
     void encode(int t, int s, int lang, unsigned coin) { Op& o = emit(OP_ENCODE, t, s); o.a = lang; o.b = coin; o.fail = maybe_fail(); }
     void store(int t, int s) { Op& o = emit(OP_STORE, t, s); o.fail = maybe_fail(); }
     void keygen(int t, int s, unsigned coin, u64 size) { Op& o = emit(OP_KEYGEN, t, s); o.a = coin; o.b = size; o.fail = maybe_fail(); }
@@ -304,8 +317,8 @@ static void walk(G& g, int nops, const Weights& w, bool allow_reinject) {
                 else { int li = g.pick_lang(); unsigned coin = g.pick_coin(); g.decode(t, fs, g.valid_phrase(sd, li, coin, 0), coin, g.rng.chance(1, 2) ? -1 : li); }
             }
         }
-        else if (take(w.encode)) { if (ls >= 0) g.encode(t, ls, g.pick_lang(), g.pick_coin()); }
-        else if (take(w.store)) { if (ls >= 0) g.store(t, ls); }
+        else if (take(w.encode)) { if (ls >= 0) { g.encode(t, ls, g.pick_lang(), g.pick_coin()); if (g.allow_chain && fs >= 0 && g.rng.chance(1, 3)) g.decode_chain(t, fs, g.seeds[{t, ls}], g.rng.chance(1, 2)); } }
+        else if (take(w.store)) { if (ls >= 0) { g.store(t, ls); if (g.allow_chain && fs >= 0 && g.rng.chance(1, 3)) g.load_chain(t, fs, g.seeds[{t, ls}]); } }
         else if (take(w.crypt)) { if (ls >= 0) { std::string pw = g.password(); g.crypt(t, ls, pw); if (g.rng.chance(1, 2)) { if (g.rng.chance(1, 3)) g.store(t, ls); g.crypt(t, ls, g.rng.chance(3, 4) ? pw : g.password()); } } }
         else if (take(w.keygen)) { if (ls >= 0) { static const u64 sz[] = {1, 16, 31, 32, 33, 64, 4096}; g.keygen(t, ls, g.pick_coin(), g.rng.chance(3, 4) ? sz[g.rng.below(7)] : 1 + g.rng.below(4096)); } }
         else if (take(w.get)) { if (ls >= 0) g.getters(t, ls); }
@@ -455,8 +468,8 @@ static Plan make_C04(u64 seed, int variant) {
         if (g.live(t, nxt)) g.free_seed(t, nxt);
         AbsSeed sd = g.seeds[{t, cur}];
         switch (g.rng.below(7)) {
-        case 0: { int li = g.pick_lang(); unsigned coin = g.pick_coin(); g.encode(t, cur, li, coin); g.decode(t, nxt, g.valid_phrase(sd, li, coin, (int)g.rng.below(256)), coin, g.rng.chance(1, 2) ? -1 : li); break; }
-        case 1: g.store(t, cur); g.load_seed(t, nxt, sd); break;
+        case 0: { int li = g.pick_lang(); unsigned coin = g.pick_coin(); g.encode(t, cur, li, coin); if (g.rng.chance(1, 2)) g.decode_chain(t, nxt, sd, g.rng.chance(1, 2)); else g.decode(t, nxt, g.valid_phrase(sd, li, coin, (int)g.rng.below(256)), coin, g.rng.chance(1, 2) ? -1 : li); break; }
+        case 1: g.store(t, cur); if (g.rng.chance(1, 2)) g.load_chain(t, nxt, sd); else g.load_seed(t, nxt, sd); break;
         case 2: { std::string pw = g.password(); g.crypt(t, cur, pw); kg(cur); g.crypt(t, cur, pw); nxt = cur; break; }
         case 3: { std::string pw = g.password(); g.crypt(t, cur, pw); nxt = cur; break; }
         case 5: {   // a seed the library itself would not create (any of the 32 feature values); if the library accepts it, its key derivation is judged too
@@ -536,8 +549,8 @@ static Plan make_C11(u64 seed, int variant) {
             int n2 = g.free_slot(t);
             AbsSeed sd = g.seeds[{t, s}];
             switch (g.rng.below(4)) {
-            case 0: if (n2 >= 0) { int li = g.pick_lang(); unsigned coin = g.pick_coin(); g.encode(t, s, li, coin); g.decode(t, n2, g.valid_phrase(sd, li, coin, (int)g.rng.below(256)), coin, g.rng.chance(1, 2) ? -1 : li); if (g.live(t, n2)) { g.emit(OP_GETB, t, n2); } } break;
-            case 1: if (n2 >= 0) { g.store(t, s); g.load_seed(t, n2, sd); if (g.live(t, n2)) g.emit(OP_GETB, t, n2); } break;
+            case 0: if (n2 >= 0) { int li = g.pick_lang(); unsigned coin = g.pick_coin(); g.encode(t, s, li, coin); if (g.rng.chance(1, 2)) g.decode_chain(t, n2, sd, g.rng.chance(1, 2)); else g.decode(t, n2, g.valid_phrase(sd, li, coin, (int)g.rng.below(256)), coin, g.rng.chance(1, 2) ? -1 : li); if (g.live(t, n2)) { g.emit(OP_GETB, t, n2); } } break;
+            case 1: if (n2 >= 0) { g.store(t, s); if (g.rng.chance(1, 2)) g.load_chain(t, n2, sd); else g.load_seed(t, n2, sd); if (g.live(t, n2)) g.emit(OP_GETB, t, n2); } break;
             case 2: g.crypt(t, s, g.password()); g.emit(OP_GETB, t, s); break;
             default: g.emit(OP_GETB, t, s); break;
             }
@@ -591,6 +604,7 @@ static Plan make_C12(u64 seed, int variant) {
 
 static Plan make_C15(u64 seed, int variant) {
     G g(seed); g.plan.prop = "C15";
+    g.allow_chain = false;      // the single-fault enumeration compares operation by operation; inputs must not depend on earlier outputs
     choose_langs(g);
     g.plan.ntasks = g.ntasks = 1 + (int)g.rng.below(3);
     // every history is subjected to the single-fault enumeration; two thirds carry sampled faults of their own as well
@@ -702,6 +716,11 @@ static Plan make_C20(u64 seed, int variant) {
     (void)variant;
     g.plan.ntasks = g.ntasks = g.rng.chance(1, 5) ? 5 + (int)g.rng.below(3) : 2 + (int)g.rng.below(3);      // a few runs with more threads than any small fixed pool
     prologue(g, (int)g.rng.below(4), (int)g.rng.below(2), (int)g.rng.below(3), (unsigned)g.rng.below(8), g.rng.below(8));
+    if (g.rng.chance(1, 3)) {   // the application (re)configures the library from more than one thread before it starts working
+        int k = 1 + (int)g.rng.below(g.ntasks - 1);
+        Op& o = g.emit(OP_INJECT, k, 0); o.a = g.rng.below(3); o.b = g.rng.below(8);
+        Op& e2 = g.emit(OP_ENABLE, (int)g.rng.below(g.ntasks), 0); e2.a = g.mask;
+    }
     // per task scripts: the walk alternates tasks, each touches only its own slots
     Weights w; w.enable = 0; w.inject = 0; w.langq = 1; w.create = 10; w.decode = 14; w.decodebad = 6; w.encode = 10; w.keygen = 8; w.crypt = 6; w.load = 6; w.store = 5; w.free_ = 6; w.fabricate = 4;
     int per = 3 + (int)g.rng.below(6);
